@@ -86,7 +86,7 @@ def bootstrap_ci(
     elif method in {"bc", "bca"}:
         if theta_hat is None:
             raise ValueError(f"Must provide theta_hat when using method {method}.")
-        theta_hat = np.asarray(theta_hat)
+        theta_hat = np.asarray(theta_hat, dtype=float)
         theta_hat = theta_hat[np.newaxis]  # (1, Y)
 
         # Flatten the metric shape to a vector
